@@ -65,7 +65,9 @@ impl Value {
     /// (Closures, ExternalFn, Fixpoint, Store, ConstructorFn).
     pub fn to_ffi_value(&self) -> Result<FfiValue, String> {
         match self {
-            Value::ErrorV(_) => Ok(FfiValue::ErrorV),
+            Value::ErrorV(_) => {
+                Err("Error values cannot be serialized across FFI boundaries".to_string())
+            }
             Value::Unit => Ok(FfiValue::Unit),
             Value::Number(n) => Ok(FfiValue::Number(*n)),
             Value::String(sym) => Ok(FfiValue::String(sym.as_str().to_string())),
